@@ -48,6 +48,20 @@ def run(rep, tier, seed):
                 diffs.append(dict(case=case, what=msg))
             else:
                 fails.append((case, f"{label}: {msg}"))
+    # generation histories: the same symbolic equations made numerical for several variable layouts in turn
+    import tempfile, shutil, sys as _sys
+    from harness import lang as _lang
+    htmp = tempfile.mkdtemp(prefix="c02h_")
+    try:
+        gms = _lang.corpus() + [_lang.Gen(rng, kind=str(rng.choice(["AE", "DAE"]))).model() for _ in range(4 if tier == "quick" else 40)]
+        hf, nh = pipeline.regen_histories(gms, rng, htmp, "c02h", what=("J",), with_module=(tier != "quick"))
+    finally:
+        shutil.rmtree(htmp, ignore_errors=True)
+        if htmp in _sys.path:
+            _sys.path.remove(htmp)
+    rep.cov["generation_histories"] = nh
+    for case, msg in hf:
+        fails.append((case, msg))
     for r, label, msg in pipeline.judge_pattern(res["records"]):
         fails.append((dict(model=r["gm"].describe(), backend=label, point=r["point"]), f"{label}: {msg}"))
     if res.get("driver_broken"):
